@@ -10,7 +10,7 @@ CLAUSES = {
     "C02": ("published-without-local-observation", "published-twice", "not-published-at-quorum",
             "governance-emitter-signed", "signed-without-guardian-set"),
     "C14": ("pending-entry-discarded-early", "no-retry-when-due", "retry-too-early", "unobserved-entry-not-expired",
-            "completed-entry-not-expired", "unexpected-reobservation-request"),
+            "completed-entry-not-expired", "unexpected-reobservation-request", "retry-budget-exceeded"),
     "C03": ("invalid-observation-changed-state",),
 }
 
